@@ -16,7 +16,7 @@ Alphabets ==
                <<37,67,51,37,65,57>>, <<37,56,48>>, <<37>>, <<49>>, <<43>>, <<233>>, <<32>>, <<10>> >>,
    \*        &  =  k  K  v  %26  %3D  %80  #  ?  "checksum"  "a:0A"  ,
    qual |-> << <<38>>, <<61>>, <<107>>, <<75>>, <<118>>, <<37,50,54>>, <<37,51,68>>, <<37,56,48>>,
-               <<35>>, <<63>>, <<99,104,101,99,107,115,117,109>>, <<97,58,48,65>>, <<44>> >>,
+               <<35>>, <<63>>, <<99,104,101,99,107,115,117,109>>, <<97,58,48,65>>, <<44>>, <<37,50,48>>, <<32>> >>,
    \*        "maven" "pypi" "NuGet" / @ "A_" "-." a ?k=v #s
    typed |-> << <<109,97,118,101,110>>, <<112,121,112,105>>, <<78,117,71,101,116>>, <<47>>, <<64>>,
                 <<65,95>>, <<45,46>>, <<97>>, <<63,107,61,118>>, <<35,115>>, <<453>>, <<110,112,109>>, <<46,47>>, <<46,46,47>> >>,
@@ -26,7 +26,8 @@ Alphabets ==
    upkeys |-> [i \in 1..36 |-> <<IF i <= 26 THEN 64 + i ELSE 21 + i, 61, 49, 38>>],
    uptype |-> [i \in 1..36 |-> <<IF i <= 26 THEN 64 + i ELSE 21 + i>>],
    \* whole qualifiers: ka=1& k_=2& kb=3& K_=4& k1=5& KA=6&
-   quals2 |-> << <<107,97,61,49,38>>, <<107,95,61,50,38>>, <<107,98,61,51,38>>, <<75,95,61,52,38>>, <<107,49,61,53,38>>, <<75,65,61,54,38>> >>]
+   quals2 |-> << <<107,97,61,49,38>>, <<107,95,61,50,38>>, <<107,98,61,51,38>>, <<75,95,61,52,38>>, <<107,49,61,53,38>>, <<75,65,61,54,38>>,
+                 <<107,97,61,38>> >>]       \* ... and ka=& (an empty value between two non-empty ones)
 Prefixes == [sep |-> PKG, path |-> PKG, qual |-> PKG \o <<116, 47, 110, 63>>, typed |-> PKG,
              nsseg |-> PKG \o <<116, 47>>, subseg |-> PKG \o <<116, 47, 110, 35>>, quals2 |-> PKG \o <<116, 47, 110, 63>>,
              upkeys |-> PKG \o <<116, 47, 110, 63>>, uptype |-> PKG \o <<116>>]
